@@ -86,6 +86,13 @@ META = {
         assumptions=COMMON_ASSUME + ["the root contains no symlinks leaving it", "data-connection commands (STOR/APPE/RETR/LIST/NLST) reach the filesystem only through the driver operations enumerated in (b)"],
         deadline_quick=900, deadline_thorough=3400,
     ),
+    "C13": dict(
+        rule="https service behind the real server in a bubble; the harness writes the TLS records itself and closes after the hello; the digest and server name are read from the https event of the connection. Structural product: legacy version {0300,0301,0302,0303} x 10 cipher-list shapes (1, 2, 40 suites; GREASE first/middle/last/several; SCSV 00ff/5600) x {no extensions, baseline extensions with/without SNI}; all ordered selections of <=3 (thorough 4) extensions from 11-14 kinds (status_request, sig-algs, ALPN, SCT, session-ticket, unknown 0x1234, two GREASE types, renegotiation-info, EMS, padding, supported-groups, point-formats, SNI; duplicates only of types whose body JA3 does not read) x 6 supported-group shapes (absent, GREASE first/last) x 0..3 point formats; GREASE twins (4 GREASE assignments of one hello must give one digest); record fragmentation: every single split point of 3 hellos across two records, 3-record splits, 11-byte TCP segments. Oracle: independent JA3 (MD5 of 'version,ciphers,extensions,groups,points' with GREASE removed from ciphers, extensions and groups). Distinct = distinct JA3 strings.",
+        bounds_quick="extension selections <=3, half of the group x point shapes",
+        bounds_thorough="extension selections <=4, all shapes",
+        assumptions=COMMON_ASSUME + ["one RSA-4096 key is generated by the service per server name and worker"],
+        deadline_quick=900, deadline_thorough=3400,
+    ),
 }
 
 NOT_APPLICABLE = {}
